@@ -19,6 +19,7 @@ func init() {
 		Gen: func(t *rapid.T, ctx *Ctx) interface{} {
 			o := valOpts(ctx)
 			o.BigPtrBias = true
+			o.WideBigFloat = true
 			avoidVal(o)
 			c := &C05Case{ValCase: *genValCase(t, ctx, o)}
 			c.Recursion = rapid.IntRange(0, 3).Draw(t, "recursion") == 0
